@@ -71,6 +71,11 @@ static void p_extract_ovw(const Args &a) {
 }
 static void p_permute(const Args &a) {
     ascon_state_t *st = st_of(a);
+    // via=macro: the convenience macros of permutation.h for 12, 8 and 6 rounds (first rounds 0, 4, 6)
+    if (a.str("via") == "macro") {
+        long r = (long)a.num("r");
+        if (r == 0) ascon_permute12(st); else if (r == 4) ascon_permute8(st); else if (r == 6) ascon_permute6(st); else fatal("no macro for first round %ld", r);
+    } else
     ascon_permute(st, (uint8_t)a.num("r"));
     Ev ev("perm.permute"); ev.n("obj", a.num("obj")).n("r", a.num("r")); dump40(ev, st); ev.emit();
 }
